@@ -100,6 +100,7 @@ type World struct {
 	refs      *RefTracker
 	forcePeek bool
 	noEvictIn bool
+	revOverride map[string]bool
 	lastRoot  []byte   // bytes of the most recent root record (for adversarial values)
 	roots     [][]byte // every root record seen so far (older ones make the nastiest fragments)
 	nEvents   int
@@ -224,7 +225,7 @@ func (w *World) callbacks() gkvlite.StoreCallbacks {
 	if m&cbKeyCompare != 0 {
 		cb.KeyCompareForCollection = func(name string) gkvlite.KeyCompare {
 			if Reversed(name, true) {
-				return reverseCompare
+				return cmpT{rev: true}.compare
 			}
 			if name == "a" {
 				return bytes.Compare
@@ -272,11 +273,28 @@ func valLen(i *gkvlite.Item) int {
 
 func (w *World) cmpByName() bool { return w.cbMask&cbKeyCompare != 0 }
 
-func (w *World) compareFor(name string) gkvlite.KeyCompare {
-	if Reversed(name, w.cmpByName()) {
-		return reverseCompare
+// isRev: does the collection called name use the reverse order in this world?
+func (w *World) isRev(name string) bool {
+	if v, ok := w.revOverride[name]; ok {
+		return v
 	}
-	return bytes.Compare
+	return Reversed(name, w.cmpByName())
+}
+
+// Every comparator handed to the library is a method value of cmpT: forward
+// and reverse order share one code pointer and differ only in the receiver
+// (two comparators must never be taken for equal because their code is).
+type cmpT struct{ rev bool }
+
+func (c cmpT) compare(a, b []byte) int {
+	if c.rev {
+		return bytes.Compare(b, a)
+	}
+	return bytes.Compare(a, b)
+}
+
+func (w *World) compareFor(name string) gkvlite.KeyCompare {
+	return cmpT{rev: w.isRev(name)}.compare
 }
 
 // ------------------------------------------------------------ io summaries
@@ -428,7 +446,7 @@ func (w *World) size(h *StoreH) int64 {
 // ----------------------------------------------------------- item encoding
 
 func (w *World) itemEv(name string, i *gkvlite.Item) Ev {
-	rev := Reversed(name, w.cmpByName())
+	rev := w.isRev(name)
 	v := fullVal(i)
 	e := Ev{"k": w.U.KeyID(i.Key, rev), "v": w.U.ValID(v, false), "p": int(i.Priority),
 		"kl": len(i.Key), "vl": len(v)}
@@ -588,7 +606,7 @@ func (w *World) collNames(h *StoreH) []string {
 
 // minTarget returns a target that is not above any key of the collection.
 func (w *World) lowTarget(name string) []byte {
-	if Reversed(name, w.cmpByName()) {
+	if w.isRev(name) {
 		return bytes.Repeat([]byte{0xff}, 70000)
 	}
 	return []byte{}
